@@ -42,7 +42,7 @@ META = {
         "Compiler::compile, provenance of the body's fee field, field-use of the fee parameters. These are the structural reasons "
         "why body fee = reported fee at a fixed point; they hold (or fail) for every template, store and parameter set."),
     "trusted_base": ["rustc MIR (mir_built for the async bodies), driver", "PartialEq on CompiledTx is derived (payload, hash, fee compared)"],
-    "not_decided": ["the numeric identity fee = a*len + b + margin", "that the iteration converges within the bound for all parameter settings"],
+    "not_decided": ["the numeric value of the fee for a given payload (the FORMULA clause decides the shape of the computation: operators, operands, default margin)", "that the iteration converges within the bound for all parameter settings"],
 }
 
 
